@@ -1,4 +1,945 @@
-//! C14 monitor (not written yet).
-pub fn run(_ctx: &crate::ctx::Ctx, report: &mut vcore::Report) {
-    report.notes.push("stub".into());
+//! C14 (bed A) – lawful total order, equality and hash for everything that compares doubles:
+//! `DoubleKey`, every `conjure_object::private::DoubleOps` impl (f64, Option, Vec, BTreeMap and
+//! nestings), and hand-written mimics of what conjure-codegen emits for objects and unions that
+//! contain doubles (`#[derive(Educe)]` with `DoubleOps::{eq,cmp,hash}` as field methods – the very
+//! derive macro and attributes the generator uses).
+//!
+//! One case = one seed = one pool of `POOL` colliding values per type; all pairs and all triples
+//! of every pool are checked against the algebraic laws. Only law-consistency is judged (whether
+//! +0 and -0 are equal is not fixed by the property; that eq, cmp and hash agree on it is).
+use crate::ctx::{guarded, Ctx};
+use conjure_object::private::{DoubleOps, Educe};
+use conjure_object::DoubleKey;
+use serde_json::json;
+use std::cmp::Ordering;
+use std::collections::hash_map::DefaultHasher;
+use std::collections::{BTreeMap, BTreeSet, HashMap, HashSet};
+use std::fmt::Debug;
+use std::hash::{BuildHasherDefault, Hash, Hasher};
+use vcore::rng::fnv;
+use vcore::text::hostile_f64;
+use vcore::{Report, Rng};
+
+const POOL: usize = 36;
+
+// ---------------------------------------------------------------------------------------------
+// Value generation: `gen` draws from collision-prone pools, `mutate` derives a neighbour
+// (prefix / subset / other NaN payload / other zero sign) of an existing value.
+
+trait Val: Clone + Debug {
+    fn gen(r: &mut Rng) -> Self;
+    fn mutate(&self, r: &mut Rng) -> Self;
+    /// Exact dump (doubles as bit patterns): two values are *identical* iff their dumps agree.
+    fn dump(&self, out: &mut String);
+    /// Top-level shape (absent / present, length bucket, variant).
+    fn top(&self) -> String;
+    /// Which special doubles occur anywhere inside: 1 NaN, 2 zero, 4 infinity, 8 subnormal.
+    fn flags(&self) -> u8;
+    /// Structural class for the distinct-case count.
+    fn class(&self) -> String {
+        format!("{}/{:x}", self.top(), self.flags())
+    }
+}
+
+const DOUBLES: &[u64] = &[
+    0x7ff8_0000_0000_0000, // NaN
+    0x7ff8_0000_0000_0001, // NaN, other payload
+    0xfff8_0000_0000_0000, // -NaN
+    0x7ff0_0000_0000_0001, // signalling NaN
+    0xffff_ffff_ffff_ffff, // -NaN, full payload
+    0x0000_0000_0000_0000, // +0
+    0x8000_0000_0000_0000, // -0
+    0x3ff0_0000_0000_0000, // 1
+    0xbff0_0000_0000_0000, // -1
+    0x7ff0_0000_0000_0000, // +inf
+    0xfff0_0000_0000_0000, // -inf
+    0x3ff8_0000_0000_0000, // 1.5
+    0x0010_0000_0000_0000, // MIN_POSITIVE
+    0x0000_0000_0000_0001, // 5e-324
+    0x8000_0000_0000_0001, // -5e-324
+    0x7fef_ffff_ffff_ffff, // MAX
+    0xffef_ffff_ffff_ffff, // MIN
+];
+
+fn f64_class(v: f64) -> &'static str {
+    if v.is_nan() {
+        let canonical = v.to_bits() & 0x000f_ffff_ffff_ffff == 0x0008_0000_0000_0000;
+        match (v.is_sign_negative(), canonical) {
+            (false, true) => "nan",
+            (false, false) => "nan'",
+            (true, true) => "-nan",
+            (true, false) => "-nan'",
+        }
+    } else if v == f64::INFINITY {
+        "+inf"
+    } else if v == f64::NEG_INFINITY {
+        "-inf"
+    } else if v == 0.0 {
+        if v.is_sign_negative() {
+            "-0"
+        } else {
+            "+0"
+        }
+    } else if v.is_subnormal() {
+        if v < 0.0 {
+            "-sub"
+        } else {
+            "+sub"
+        }
+    } else if v < 0.0 {
+        "neg"
+    } else {
+        "pos"
+    }
+}
+
+impl Val for f64 {
+    fn gen(r: &mut Rng) -> Self {
+        if r.chance(4, 5) {
+            f64::from_bits(*r.pick(DOUBLES))
+        } else {
+            hostile_f64(r)
+        }
+    }
+    fn mutate(&self, r: &mut Rng) -> Self {
+        let b = self.to_bits();
+        match r.below(4) {
+            // other sign: -0 for +0, -NaN for NaN, -x for x
+            0 => f64::from_bits(b ^ (1 << 63)),
+            // neighbour (NaN: another payload; inf: a NaN or MAX)
+            1 => f64::from_bits(b.wrapping_add(1)),
+            2 => f64::from_bits(b.wrapping_sub(1)),
+            _ => {
+                if self.is_nan() {
+                    f64::from_bits(b ^ (r.u64() & 0x0007_ffff_ffff_ffff))
+                } else {
+                    f64::gen(r)
+                }
+            }
+        }
+    }
+    fn dump(&self, out: &mut String) {
+        out.push_str(&format!("{:016x}", self.to_bits()));
+    }
+    fn top(&self) -> String {
+        f64_class(*self).to_string()
+    }
+    fn flags(&self) -> u8 {
+        (self.is_nan() as u8) | ((*self == 0.0) as u8) << 1 | (self.is_infinite() as u8) << 2 | (self.is_subnormal() as u8) << 3
+    }
+}
+
+impl Val for DoubleKey {
+    fn gen(r: &mut Rng) -> Self {
+        DoubleKey(f64::gen(r))
+    }
+    fn mutate(&self, r: &mut Rng) -> Self {
+        DoubleKey(self.0.mutate(r))
+    }
+    fn dump(&self, out: &mut String) {
+        self.0.dump(out)
+    }
+    fn top(&self) -> String {
+        self.0.top()
+    }
+    fn flags(&self) -> u8 {
+        self.0.flags()
+    }
+}
+
+impl Val for String {
+    fn gen(r: &mut Rng) -> Self {
+        (*r.pick(&["", "a", "ab", "b", "NaN", "é"])).to_string()
+    }
+    fn mutate(&self, r: &mut Rng) -> Self {
+        if r.bool() {
+            format!("{}a", self)
+        } else {
+            String::gen(r)
+        }
+    }
+    fn dump(&self, out: &mut String) {
+        out.push_str(&format!("{:?}", self));
+    }
+    fn top(&self) -> String {
+        "s".into()
+    }
+    fn flags(&self) -> u8 {
+        0
+    }
+}
+
+impl Val for i32 {
+    fn gen(r: &mut Rng) -> Self {
+        *r.pick(&[0, 1, -1, 2, i32::MIN, i32::MAX])
+    }
+    fn mutate(&self, r: &mut Rng) -> Self {
+        if r.bool() {
+            self.wrapping_add(1)
+        } else {
+            i32::gen(r)
+        }
+    }
+    fn dump(&self, out: &mut String) {
+        out.push_str(&self.to_string());
+    }
+    fn top(&self) -> String {
+        "i".into()
+    }
+    fn flags(&self) -> u8 {
+        0
+    }
+}
+
+impl<T: Val> Val for Option<T> {
+    fn gen(r: &mut Rng) -> Self {
+        if r.chance(1, 4) {
+            None
+        } else {
+            Some(T::gen(r))
+        }
+    }
+    fn mutate(&self, r: &mut Rng) -> Self {
+        match self {
+            None => Some(T::gen(r)),
+            Some(_) if r.chance(1, 4) => None,
+            Some(v) => Some(v.mutate(r)),
+        }
+    }
+    fn dump(&self, out: &mut String) {
+        match self {
+            None => out.push_str("None"),
+            Some(v) => {
+                out.push_str("Some(");
+                v.dump(out);
+                out.push(')');
+            }
+        }
+    }
+    fn top(&self) -> String {
+        match self {
+            None => "None".into(),
+            Some(_) => "Some".into(),
+        }
+    }
+    fn flags(&self) -> u8 {
+        self.as_ref().map(|v| v.flags()).unwrap_or(0)
+    }
+}
+
+impl<T: Val> Val for Vec<T> {
+    fn gen(r: &mut Rng) -> Self {
+        (0..r.below(4)).map(|_| T::gen(r)).collect()
+    }
+    fn mutate(&self, r: &mut Rng) -> Self {
+        let mut v = self.clone();
+        match r.below(4) {
+            // extension: the original is a strict prefix
+            0 => v.push(T::gen(r)),
+            // strict prefix of the original
+            1 => {
+                v.pop();
+            }
+            2 if !v.is_empty() => {
+                let i = r.below(v.len());
+                v[i] = v[i].mutate(r);
+            }
+            _ => {
+                if !v.is_empty() {
+                    let i = r.below(v.len());
+                    v.remove(i);
+                } else {
+                    v.push(T::gen(r));
+                }
+            }
+        }
+        v
+    }
+    fn dump(&self, out: &mut String) {
+        out.push('[');
+        for v in self {
+            v.dump(out);
+            out.push(',');
+        }
+        out.push(']');
+    }
+    fn top(&self) -> String {
+        format!("[{}]", self.len().min(3))
+    }
+    fn flags(&self) -> u8 {
+        self.iter().fold(0, |f, v| f | v.flags())
+    }
+}
+
+impl<K: Val + Ord, V: Val> Val for BTreeMap<K, V> {
+    fn gen(r: &mut Rng) -> Self {
+        (0..r.below(4)).map(|_| (K::gen(r), V::gen(r))).collect()
+    }
+    fn mutate(&self, r: &mut Rng) -> Self {
+        let mut m = self.clone();
+        let keys: Vec<K> = m.keys().cloned().collect();
+        match r.below(4) {
+            // superset
+            0 => {
+                m.insert(K::gen(r), V::gen(r));
+            }
+            // subset
+            1 if !keys.is_empty() => {
+                m.remove(r.pick(&keys));
+            }
+            // same keys, one value changed
+            2 if !keys.is_empty() => {
+                let k = r.pick(&keys).clone();
+                let v = m[&k].mutate(r);
+                m.insert(k, v);
+            }
+            // one key replaced by a neighbour, value kept
+            _ => {
+                if let Some(k) = keys.first() {
+                    let v = m.remove(k).unwrap();
+                    m.insert(k.mutate(r), v);
+                } else {
+                    m.insert(K::gen(r), V::gen(r));
+                }
+            }
+        }
+        m
+    }
+    fn dump(&self, out: &mut String) {
+        out.push('{');
+        for (k, v) in self {
+            k.dump(out);
+            out.push_str("=>");
+            v.dump(out);
+            out.push(',');
+        }
+        out.push('}');
+    }
+    fn top(&self) -> String {
+        format!("{{{}}}", self.len().min(3))
+    }
+    fn flags(&self) -> u8 {
+        self.iter().fold(0, |f, (k, v)| f | k.flags() | v.flags())
+    }
+}
+
+// ---------------------------------------------------------------------------------------------
+// The types under test. `dbl!` declares what conjure-codegen declares for a one-field object whose
+// field "is double": the Educe derive with DoubleOps methods on the field.
+
+macro_rules! dbl {
+    ($name:ident, $t:ty) => {
+        #[derive(Debug, Clone, Educe)]
+        #[educe(PartialEq, Eq, PartialOrd, Ord, Hash)]
+        struct $name(
+            #[educe(
+                PartialEq(method(conjure_object::private::DoubleOps::eq)),
+                Ord(method(conjure_object::private::DoubleOps::cmp)),
+                Hash(method(conjure_object::private::DoubleOps::hash))
+            )]
+            $t,
+        );
+        impl Val for $name {
+            fn gen(r: &mut Rng) -> Self {
+                $name(<$t as Val>::gen(r))
+            }
+            fn mutate(&self, r: &mut Rng) -> Self {
+                $name(self.0.mutate(r))
+            }
+            fn dump(&self, out: &mut String) {
+                self.0.dump(out)
+            }
+            fn top(&self) -> String {
+                self.0.top()
+            }
+            fn flags(&self) -> u8 {
+                self.0.flags()
+            }
+        }
+        impl ViaOps for $name {
+            type Inner = $t;
+            fn inner(&self) -> &$t {
+                &self.0
+            }
+        }
+    };
+}
+
+/// Access to the wrapped value so that the trait functions can also be called directly.
+trait ViaOps {
+    type Inner: DoubleOps;
+    fn inner(&self) -> &Self::Inner;
+}
+
+dbl!(TF64, f64);
+dbl!(TOpt, Option<f64>);
+dbl!(TList, Vec<f64>);
+dbl!(TMap, BTreeMap<String, f64>);
+dbl!(TOptList, Option<Vec<f64>>);
+dbl!(TListOpt, Vec<Option<f64>>);
+dbl!(TMapList, BTreeMap<String, Vec<f64>>);
+dbl!(TKeyMap, BTreeMap<DoubleKey, f64>);
+dbl!(TListList, Vec<Vec<f64>>);
+dbl!(TOptOpt, Option<Option<f64>>);
+dbl!(TIntMapOpt, BTreeMap<i32, Option<f64>>);
+dbl!(TKeyMapMap, BTreeMap<DoubleKey, BTreeMap<String, f64>>);
+dbl!(TListMap, Vec<BTreeMap<String, f64>>);
+dbl!(TDeep, Option<BTreeMap<DoubleKey, Vec<Option<f64>>>>);
+
+/// Mimic of a generated object with double and non-double fields (objects.rs: the educe field
+/// attribute is attached exactly to the fields for which `is_double` holds).
+#[derive(Debug, Clone, Educe)]
+#[educe(PartialEq, Eq, PartialOrd, Ord, Hash)]
+struct Obj {
+    name: String,
+    #[educe(
+        PartialEq(method(conjure_object::private::DoubleOps::eq)),
+        Ord(method(conjure_object::private::DoubleOps::cmp)),
+        Hash(method(conjure_object::private::DoubleOps::hash))
+    )]
+    value: f64,
+    #[educe(
+        PartialEq(method(conjure_object::private::DoubleOps::eq)),
+        Ord(method(conjure_object::private::DoubleOps::cmp)),
+        Hash(method(conjure_object::private::DoubleOps::hash))
+    )]
+    opt: Option<f64>,
+    keys: BTreeSet<DoubleKey>,
+    #[educe(
+        PartialEq(method(conjure_object::private::DoubleOps::eq)),
+        Ord(method(conjure_object::private::DoubleOps::cmp)),
+        Hash(method(conjure_object::private::DoubleOps::hash))
+    )]
+    list: Vec<f64>,
+    count: i32,
+}
+
+impl Val for Obj {
+    fn gen(r: &mut Rng) -> Self {
+        Obj {
+            name: String::gen(r),
+            value: f64::gen(r),
+            opt: Option::<f64>::gen(r),
+            keys: (0..r.below(3)).map(|_| DoubleKey::gen(r)).collect(),
+            list: Vec::<f64>::gen(r),
+            count: i32::gen(r),
+        }
+    }
+    fn mutate(&self, r: &mut Rng) -> Self {
+        let mut o = self.clone();
+        match r.below(6) {
+            0 => o.name = o.name.mutate(r),
+            1 => o.value = o.value.mutate(r),
+            2 => o.opt = o.opt.mutate(r),
+            3 => {
+                o.keys.insert(DoubleKey::gen(r));
+            }
+            4 => o.list = o.list.mutate(r),
+            _ => o.count = o.count.mutate(r),
+        }
+        o
+    }
+    fn dump(&self, out: &mut String) {
+        self.name.dump(out);
+        out.push(';');
+        self.value.dump(out);
+        out.push(';');
+        self.opt.dump(out);
+        out.push(';');
+        for k in &self.keys {
+            k.dump(out);
+            out.push(',');
+        }
+        out.push(';');
+        self.list.dump(out);
+        out.push(';');
+        self.count.dump(out);
+    }
+    fn top(&self) -> String {
+        format!("obj({},{})", self.opt.top(), self.list.top())
+    }
+    fn flags(&self) -> u8 {
+        self.value.flags() | self.opt.flags() | self.list.flags() | self.keys.iter().fold(0, |f, k| f | k.flags())
+    }
+}
+
+/// Mimic of a generated union with double and non-double variants (unions.rs).
+#[derive(Debug, Clone, Educe)]
+#[educe(PartialEq, Eq, PartialOrd, Ord, Hash)]
+enum Uni {
+    Num(
+        #[educe(
+            PartialEq(method(conjure_object::private::DoubleOps::eq)),
+            Ord(method(conjure_object::private::DoubleOps::cmp)),
+            Hash(method(conjure_object::private::DoubleOps::hash))
+        )]
+        f64,
+    ),
+    Nums(
+        #[educe(
+            PartialEq(method(conjure_object::private::DoubleOps::eq)),
+            Ord(method(conjure_object::private::DoubleOps::cmp)),
+            Hash(method(conjure_object::private::DoubleOps::hash))
+        )]
+        Vec<f64>,
+    ),
+    Maybe(
+        #[educe(
+            PartialEq(method(conjure_object::private::DoubleOps::eq)),
+            Ord(method(conjure_object::private::DoubleOps::cmp)),
+            Hash(method(conjure_object::private::DoubleOps::hash))
+        )]
+        Option<f64>,
+    ),
+    Text(String),
+    Keyed(BTreeMap<DoubleKey, String>),
+    Boxed(Box<Obj>),
+}
+
+impl Val for Uni {
+    fn gen(r: &mut Rng) -> Self {
+        match r.below(8) {
+            0 | 1 | 2 => Uni::Num(f64::gen(r)),
+            3 => Uni::Nums(Vec::<f64>::gen(r)),
+            4 => Uni::Maybe(Option::<f64>::gen(r)),
+            5 => Uni::Text(String::gen(r)),
+            6 => Uni::Keyed(BTreeMap::<DoubleKey, String>::gen(r)),
+            _ => Uni::Boxed(Box::new(Obj::gen(r))),
+        }
+    }
+    fn mutate(&self, r: &mut Rng) -> Self {
+        match self {
+            Uni::Num(v) => Uni::Num(v.mutate(r)),
+            Uni::Nums(v) => Uni::Nums(v.mutate(r)),
+            Uni::Maybe(v) => Uni::Maybe(v.mutate(r)),
+            Uni::Text(v) => Uni::Text(v.mutate(r)),
+            Uni::Keyed(v) => Uni::Keyed(v.mutate(r)),
+            Uni::Boxed(v) => Uni::Boxed(Box::new(v.mutate(r))),
+        }
+    }
+    fn dump(&self, out: &mut String) {
+        match self {
+            Uni::Num(v) => {
+                out.push_str("Num:");
+                v.dump(out)
+            }
+            Uni::Nums(v) => {
+                out.push_str("Nums:");
+                v.dump(out)
+            }
+            Uni::Maybe(v) => {
+                out.push_str("Maybe:");
+                v.dump(out)
+            }
+            Uni::Text(v) => {
+                out.push_str("Text:");
+                v.dump(out)
+            }
+            Uni::Keyed(v) => {
+                out.push_str("Keyed:");
+                v.dump(out)
+            }
+            Uni::Boxed(v) => {
+                out.push_str("Boxed:");
+                v.dump(out)
+            }
+        }
+    }
+    fn top(&self) -> String {
+        match self {
+            Uni::Num(_) => "Num".into(),
+            Uni::Nums(v) => format!("Nums{}", v.top()),
+            Uni::Maybe(v) => format!("Maybe({})", v.top()),
+            Uni::Text(_) => "Text".into(),
+            Uni::Keyed(v) => format!("Keyed{}", v.top()),
+            Uni::Boxed(_) => "Boxed".into(),
+        }
+    }
+    fn flags(&self) -> u8 {
+        match self {
+            Uni::Num(v) => v.flags(),
+            Uni::Nums(v) => v.flags(),
+            Uni::Maybe(v) => v.flags(),
+            Uni::Text(_) => 0,
+            Uni::Keyed(v) => v.keys().fold(0, |f, k| f | k.flags()),
+            Uni::Boxed(v) => v.flags(),
+        }
+    }
+}
+
+// ---------------------------------------------------------------------------------------------
+
+fn pool<T: Val>(r: &mut Rng) -> Vec<T> {
+    let mut p: Vec<T> = Vec::with_capacity(POOL);
+    while p.len() < POOL {
+        let v = if p.is_empty() || r.chance(2, 5) {
+            T::gen(r)
+        } else {
+            let base = p[r.below(p.len())].clone();
+            match r.below(5) {
+                0 => base, // an identical twin
+                1 => base.mutate(r).mutate(r),
+                _ => base.mutate(r),
+            }
+        };
+        p.push(v);
+    }
+    p
+}
+
+fn hash_of<T: Hash>(v: &T) -> u64 {
+    let mut h = DefaultHasher::new();
+    v.hash(&mut h);
+    h.finish()
+}
+
+fn dump<T: Val>(v: &T) -> String {
+    let mut s = String::new();
+    v.dump(&mut s);
+    s
+}
+
+type FixedState = BuildHasherDefault<DefaultHasher>;
+
+struct Laws<'a> {
+    rep: &'a mut Report,
+    sub: &'a str,
+    seed: u64,
+    ty: &'a str,
+}
+
+impl Laws<'_> {
+    fn fail(&mut self, law: &str, values: Vec<String>, info: String) {
+        self.rep.violation(
+            self.sub,
+            self.seed,
+            format!("{}:{}", self.ty, law),
+            json!({"type": self.ty, "law": law, "values (doubles as bit patterns)": values, "info": info}),
+        );
+    }
+}
+
+/// All laws over one pool. `as_f64` is given for the two types that *are* a double.
+fn check_pool<T>(rep: &mut Report, sub: &str, seed: u64, ty: &str, p: &[T], as_f64: Option<fn(&T) -> f64>)
+where
+    T: Val + Ord + Hash,
+{
+    let n = p.len();
+    let mut l = Laws { rep, sub, seed, ty };
+    l.rep.cell(&format!("type/{}", ty));
+
+    // every comparison of the code under test is made exactly once, under panic capture
+    let tables = guarded(|| {
+        let mut cmp = vec![Ordering::Equal; n * n];
+        let mut eq = vec![false; n * n];
+        let mut extra_ok = vec![0u8; n * n];
+        for i in 0..n {
+            for j in 0..n {
+                let (a, b) = (&p[i], &p[j]);
+                cmp[i * n + j] = a.cmp(b);
+                eq[i * n + j] = a == b;
+                let mut bad = 0u8;
+                if (a != b) == (a == b) {
+                    bad |= 1;
+                }
+                if a.partial_cmp(b) != Some(a.cmp(b)) {
+                    bad |= 2;
+                }
+                let c = a.cmp(b);
+                if (a < b) != (c == Ordering::Less)
+                    || (a <= b) != (c != Ordering::Greater)
+                    || (a > b) != (c == Ordering::Greater)
+                    || (a >= b) != (c != Ordering::Less)
+                {
+                    bad |= 4;
+                }
+                extra_ok[i * n + j] = bad;
+            }
+        }
+        let hashes: Vec<u64> = p.iter().map(hash_of).collect();
+        (cmp, eq, extra_ok, hashes)
+    });
+    let (cmp, eq, extra, hashes) = match tables {
+        Ok(t) => t,
+        Err(e) => return l.fail("panic", vec![], e),
+    };
+    let dumps: Vec<String> = p.iter().map(dump).collect();
+    let classes: Vec<String> = p.iter().map(|v| v.class()).collect();
+    let at = |i: usize, j: usize| i * n + j;
+
+    // ---- unary and binary laws
+    for i in 0..n {
+        l.rep.evaluations += 2;
+        if !eq[at(i, i)] {
+            l.fail("eq-not-reflexive", vec![dumps[i].clone()], String::new());
+        }
+        if cmp[at(i, i)] != Ordering::Equal {
+            l.fail("cmp-self-not-equal", vec![dumps[i].clone()], format!("{:?}", cmp[at(i, i)]));
+        }
+        for j in 0..n {
+            l.rep.evaluations += 6;
+            let pair = || vec![dumps[i].clone(), dumps[j].clone()];
+            if eq[at(i, j)] != eq[at(j, i)] {
+                l.fail("eq-not-symmetric", pair(), String::new());
+            }
+            if (cmp[at(i, j)] == Ordering::Equal) != eq[at(i, j)] {
+                l.fail("cmp-equal-iff-eq", pair(), format!("cmp {:?}, eq {}", cmp[at(i, j)], eq[at(i, j)]));
+            }
+            if cmp[at(i, j)] != cmp[at(j, i)].reverse() {
+                l.fail("cmp-not-antisymmetric", pair(), format!("{:?} vs {:?}", cmp[at(i, j)], cmp[at(j, i)]));
+            }
+            if eq[at(i, j)] && hashes[i] != hashes[j] {
+                l.fail("eq-but-hash-differs", pair(), String::new());
+            }
+            if extra[at(i, j)] & 1 != 0 {
+                l.fail("ne-not-negation-of-eq", pair(), String::new());
+            }
+            if extra[at(i, j)] & 2 != 0 {
+                l.fail("partial-cmp-not-some-cmp", pair(), String::new());
+            }
+            if extra[at(i, j)] & 4 != 0 {
+                l.fail("operators-disagree-with-cmp", pair(), String::new());
+            }
+            if let Some(f) = as_f64 {
+                l.rep.evaluations += 1;
+                let (a, b) = (f(&p[i]), f(&p[j]));
+                if a.is_nan() {
+                    // NaN is greatest (>= everything, +inf included) and all NaNs are equal
+                    if cmp[at(i, j)] == Ordering::Less {
+                        l.fail("nan-not-greatest", pair(), format!("cmp {:?}", cmp[at(i, j)]));
+                    }
+                    if b.is_nan() && (!eq[at(i, j)] || cmp[at(i, j)] != Ordering::Equal) {
+                        l.fail("nan-not-equal-to-nan", pair(), format!("eq {}, cmp {:?}", eq[at(i, j)], cmp[at(i, j)]));
+                    }
+                } else if !b.is_nan() && a != b && a.partial_cmp(&b) != Some(cmp[at(i, j)]) {
+                    // that ordinary doubles order numerically is not part of the statement
+                    l.rep.observed_only("double-order-not-numeric");
+                }
+            }
+            if i <= j {
+                let rel = match cmp[at(i, j)] {
+                    Ordering::Equal if dumps[i] == dumps[j] => "identical",
+                    Ordering::Equal => "equal-not-identical",
+                    _ => "ordered",
+                };
+                if rel == "equal-not-identical" {
+                    l.rep.cell(&format!("nontrivial-eq/{}", ty));
+                }
+                let (x, y) = if classes[i] <= classes[j] { (i, j) } else { (j, i) };
+                l.rep.distinct.insert(fnv(&format!("{}|{}|{}|{}", ty, classes[x], classes[y], rel)));
+            }
+        }
+    }
+
+    // ---- ternary laws
+    let mut tri = 0u64;
+    for i in 0..n {
+        for j in 0..n {
+            let ij = cmp[at(i, j)];
+            for k in 0..n {
+                tri += 1;
+                let jk = cmp[at(j, k)];
+                if ij != Ordering::Greater && jk != Ordering::Greater {
+                    let ik = cmp[at(i, k)];
+                    if ik == Ordering::Greater || ((ij == Ordering::Less || jk == Ordering::Less) && ik != Ordering::Less) {
+                        l.fail(
+                            "cmp-not-transitive",
+                            vec![dumps[i].clone(), dumps[j].clone(), dumps[k].clone()],
+                            format!("a?b {:?}, b?c {:?}, a?c {:?}", ij, jk, ik),
+                        );
+                    }
+                }
+                if eq[at(i, j)] && eq[at(j, k)] && !eq[at(i, k)] {
+                    l.fail(
+                        "eq-not-transitive",
+                        vec![dumps[i].clone(), dumps[j].clone(), dumps[k].clone()],
+                        String::new(),
+                    );
+                }
+            }
+        }
+    }
+    l.rep.evaluations += 2 * tri;
+    l.rep.cell_n("triples", tri);
+
+    // ---- collections: as many classes under BTreeSet as under HashSet as under ==; every
+    // inserted value is found again
+    let mut reps: Vec<usize> = vec![];
+    for i in 0..n {
+        if !reps.iter().any(|&q| eq[at(q, i)]) {
+            reps.push(i);
+        }
+    }
+    let sets = guarded(|| {
+        let bt: BTreeSet<T> = p.iter().cloned().collect();
+        let hs: HashSet<T, FixedState> = p.iter().cloned().collect();
+        let bm: BTreeMap<T, usize> = p.iter().cloned().enumerate().map(|(i, v)| (v, i)).collect();
+        let hm: HashMap<T, usize, FixedState> = p.iter().cloned().enumerate().map(|(i, v)| (v, i)).collect();
+        let mut lost = vec![];
+        for (i, v) in p.iter().enumerate() {
+            if !bt.contains(v) {
+                lost.push(("btreeset-loses-value", i));
+            }
+            if !hs.contains(v) {
+                lost.push(("hashset-loses-value", i));
+            }
+            // the surviving entry is the last inserted equal value
+            match bm.get(v) {
+                Some(&q) if eq[at(q, i)] => {}
+                _ => lost.push(("btreemap-loses-key", i)),
+            }
+            match hm.get(v) {
+                Some(&q) if eq[at(q, i)] => {}
+                _ => lost.push(("hashmap-loses-key", i)),
+            }
+        }
+        // sorted iteration is ascending
+        let sorted: Vec<&T> = bt.iter().collect();
+        let ascending = sorted.windows(2).all(|w| w[0].cmp(w[1]) == Ordering::Less);
+        (bt.len(), hs.len(), bm.len(), hm.len(), lost, ascending)
+    });
+    l.rep.evaluations += 4 * n as u64 + 4;
+    match sets {
+        Err(e) => l.fail("panic", vec![], e),
+        Ok((bt, hs, bm, hm, lost, ascending)) => {
+            if bt != reps.len() || hs != reps.len() || bm != reps.len() || hm != reps.len() {
+                l.fail(
+                    "class-count-differs",
+                    dumps.clone(),
+                    format!("== {}, BTreeSet {}, HashSet {}, BTreeMap {}, HashMap {}", reps.len(), bt, hs, bm, hm),
+                );
+            }
+            for (what, i) in lost {
+                l.fail(what, vec![dumps[i].clone()], String::new());
+            }
+            if !ascending {
+                l.fail("btreeset-iteration-not-ascending", dumps.clone(), String::new());
+            }
+        }
+    }
+}
+
+/// The trait functions called directly (not through the derive) agree with the derived impls.
+fn check_direct<T>(rep: &mut Report, sub: &str, seed: u64, ty: &str, p: &[T])
+where
+    T: Val + Ord + Hash + ViaOps,
+{
+    let mut l = Laws { rep, sub, seed, ty };
+    for a in p {
+        for b in p {
+            l.rep.evaluations += 3;
+            let r = guarded(|| {
+                let (x, y) = (a.inner(), b.inner());
+                let mut h1 = DefaultHasher::new();
+                DoubleOps::hash(x, &mut h1);
+                let mut h2 = DefaultHasher::new();
+                DoubleOps::hash(y, &mut h2);
+                (DoubleOps::eq(x, y), DoubleOps::cmp(x, y), h1.finish(), h2.finish())
+            });
+            match r {
+                Err(e) => l.fail("panic", vec![dump(a), dump(b)], e),
+                Ok((eq, cmp, h1, h2)) => {
+                    if eq != (a == b) || cmp != a.cmp(b) {
+                        l.fail("double-ops-disagree-with-derive", vec![dump(a), dump(b)], String::new());
+                    }
+                    if eq != (cmp == Ordering::Equal) {
+                        l.fail("double-ops-cmp-equal-iff-eq", vec![dump(a), dump(b)], format!("{:?} {}", cmp, eq));
+                    }
+                    if eq && h1 != h2 {
+                        l.fail("double-ops-eq-but-hash-differs", vec![dump(a), dump(b)], String::new());
+                    }
+                }
+            }
+        }
+    }
+}
+
+const N_TYPES: u64 = 17;
+
+#[derive(Debug, Clone)]
+struct Bad(f64);
+impl PartialEq for Bad { fn eq(&self, o: &Self) -> bool { self.0 == o.0 } }
+impl Eq for Bad {}
+impl PartialOrd for Bad { fn partial_cmp(&self, o: &Self) -> Option<Ordering> { self.0.partial_cmp(&o.0) } }
+impl Ord for Bad { fn cmp(&self, o: &Self) -> Ordering { self.0.total_cmp(&o.0) } }
+impl Hash for Bad { fn hash<H: Hasher>(&self, h: &mut H) { self.0.to_bits().hash(h) } }
+impl Val for Bad {
+    fn gen(r: &mut Rng) -> Self { Bad(f64::gen(r)) }
+    fn mutate(&self, r: &mut Rng) -> Self { Bad(self.0.mutate(r)) }
+    fn dump(&self, out: &mut String) { self.0.dump(out) }
+    fn top(&self) -> String { self.0.top() }
+    fn flags(&self) -> u8 { self.0.flags() }
+}
+
+
+fn case(rep: &mut Report, sub: &str, seed: u64) {
+    let mut rng = Rng::new(seed);
+    let r = &mut rng;
+    macro_rules! ops {
+        ($t:ty, $name:expr) => {{
+            let p = pool::<$t>(r);
+            check_pool(rep, sub, seed, $name, &p, None);
+            check_direct(rep, sub, seed, $name, &p);
+        }};
+    }
+    {
+        let p = pool::<DoubleKey>(r);
+        check_pool(rep, sub, seed, "DoubleKey", &p, Some(|k: &DoubleKey| k.0));
+    }
+    {
+        let p = pool::<TF64>(r);
+        check_pool(rep, sub, seed, "f64", &p, Some(|k: &TF64| k.0));
+        check_direct(rep, sub, seed, "f64", &p);
+    }
+    ops!(TOpt, "optional<double>");
+    ops!(TList, "list<double>");
+    ops!(TMap, "map<string,double>");
+    ops!(TOptList, "optional<list<double>>");
+    ops!(TListOpt, "list<optional<double>>");
+    ops!(TMapList, "map<string,list<double>>");
+    ops!(TKeyMap, "map<double,double>");
+    ops!(TListList, "list<list<double>>");
+    ops!(TOptOpt, "optional<optional<double>>");
+    ops!(TIntMapOpt, "map<integer,optional<double>>");
+    ops!(TKeyMapMap, "map<double,map<string,double>>");
+    ops!(TListMap, "list<map<string,double>>");
+    ops!(TDeep, "optional<map<double,list<optional<double>>>>");
+    {
+        let p = pool::<Bad>(r);
+        check_pool(rep, sub, seed, "BAD", &p, Some(|k: &Bad| k.0));
+    }
+    {
+        let p = pool::<Obj>(r);
+        check_pool(rep, sub, seed, "mimic-object", &p, None);
+    }
+    {
+        let p = pool::<Uni>(r);
+        check_pool(rep, sub, seed, "mimic-union", &p, None);
+    }
+}
+
+pub fn run(ctx: &Ctx, report: &mut Report) {
+    // a fixed pool first: every listed double against every other, for the two double types
+    ctx.fixed(report, "table", |rep| {
+        let all: Vec<f64> = DOUBLES.iter().map(|b| f64::from_bits(*b)).collect();
+        let keys: Vec<DoubleKey> = all.iter().map(|v| DoubleKey(*v)).collect();
+        check_pool(rep, "table", 0, "DoubleKey", &keys, Some(|k: &DoubleKey| k.0));
+        let vals: Vec<TF64> = all.iter().map(|v| TF64(*v)).collect();
+        check_pool(rep, "table", 0, "f64", &vals, Some(|k: &TF64| k.0));
+        check_direct(rep, "table", 0, "f64", &vals);
+    });
+    ctx.cases(report, "pools", ctx.n(200, 20_000), |seed, rep| {
+        case(rep, "pools", seed);
+    });
+    if ctx.replay.is_none() {
+        report.floor_cells("types", "type/", N_TYPES);
+        // every type saw values that are equal without being identical (NaN payloads, zero signs)
+        report.floor_cells("types-with-nontrivial-equal-pairs", "nontrivial-eq/", N_TYPES);
+        let tri = report.matrix.get("triples").copied().unwrap_or(0);
+        let pools = ctx.n(200, 20_000);
+        report.floor("triples", pools * N_TYPES * (POOL * POOL * POOL) as u64, tri);
+        let d = report.distinct.len() as u64;
+        report.floor("distinct-pair-classes", if ctx.scale >= 1.0 { 3000 } else { 600 }, d);
+    }
+    report.notes.push("distinct = (type, class of a, class of b, identical | equal-not-identical | ordered)".into());
 }
